@@ -71,60 +71,63 @@ Record state := mkState {
   finished : list (id * result);
   failures : nat;
   postb : nat;
-  failedids : list id }.
+  failedids : list id;
+  shuterr : bool }.
 
 Definition set_queue (v : list id) (s : state) : state :=
-  mkState v (qstop s) (store s) (refs s) (closed s) (idle s) (exited s) (holding s) (cflush s) (current s) (workers s) (works s) (timer s) (bclosed s) (rstop s) (pc s) (accepted s) (accpre s) (late s) (taken s) (begun s) (ended s) (finished s) (failures s) (postb s) (failedids s).
+  mkState v (qstop s) (store s) (refs s) (closed s) (idle s) (exited s) (holding s) (cflush s) (current s) (workers s) (works s) (timer s) (bclosed s) (rstop s) (pc s) (accepted s) (accpre s) (late s) (taken s) (begun s) (ended s) (finished s) (failures s) (postb s) (failedids s) (shuterr s).
 Definition set_qstop (v : bool) (s : state) : state :=
-  mkState (queue s) v (store s) (refs s) (closed s) (idle s) (exited s) (holding s) (cflush s) (current s) (workers s) (works s) (timer s) (bclosed s) (rstop s) (pc s) (accepted s) (accpre s) (late s) (taken s) (begun s) (ended s) (finished s) (failures s) (postb s) (failedids s).
+  mkState (queue s) v (store s) (refs s) (closed s) (idle s) (exited s) (holding s) (cflush s) (current s) (workers s) (works s) (timer s) (bclosed s) (rstop s) (pc s) (accepted s) (accpre s) (late s) (taken s) (begun s) (ended s) (finished s) (failures s) (postb s) (failedids s) (shuterr s).
 Definition set_store (v : list id) (s : state) : state :=
-  mkState (queue s) (qstop s) v (refs s) (closed s) (idle s) (exited s) (holding s) (cflush s) (current s) (workers s) (works s) (timer s) (bclosed s) (rstop s) (pc s) (accepted s) (accpre s) (late s) (taken s) (begun s) (ended s) (finished s) (failures s) (postb s) (failedids s).
+  mkState (queue s) (qstop s) v (refs s) (closed s) (idle s) (exited s) (holding s) (cflush s) (current s) (workers s) (works s) (timer s) (bclosed s) (rstop s) (pc s) (accepted s) (accpre s) (late s) (taken s) (begun s) (ended s) (finished s) (failures s) (postb s) (failedids s) (shuterr s).
 Definition set_refs (v : nat) (s : state) : state :=
-  mkState (queue s) (qstop s) (store s) v (closed s) (idle s) (exited s) (holding s) (cflush s) (current s) (workers s) (works s) (timer s) (bclosed s) (rstop s) (pc s) (accepted s) (accpre s) (late s) (taken s) (begun s) (ended s) (finished s) (failures s) (postb s) (failedids s).
+  mkState (queue s) (qstop s) (store s) v (closed s) (idle s) (exited s) (holding s) (cflush s) (current s) (workers s) (works s) (timer s) (bclosed s) (rstop s) (pc s) (accepted s) (accpre s) (late s) (taken s) (begun s) (ended s) (finished s) (failures s) (postb s) (failedids s) (shuterr s).
 Definition set_closed (v : bool) (s : state) : state :=
-  mkState (queue s) (qstop s) (store s) (refs s) v (idle s) (exited s) (holding s) (cflush s) (current s) (workers s) (works s) (timer s) (bclosed s) (rstop s) (pc s) (accepted s) (accpre s) (late s) (taken s) (begun s) (ended s) (finished s) (failures s) (postb s) (failedids s).
+  mkState (queue s) (qstop s) (store s) (refs s) v (idle s) (exited s) (holding s) (cflush s) (current s) (workers s) (works s) (timer s) (bclosed s) (rstop s) (pc s) (accepted s) (accpre s) (late s) (taken s) (begun s) (ended s) (finished s) (failures s) (postb s) (failedids s) (shuterr s).
 Definition set_idle (v : nat) (s : state) : state :=
-  mkState (queue s) (qstop s) (store s) (refs s) (closed s) v (exited s) (holding s) (cflush s) (current s) (workers s) (works s) (timer s) (bclosed s) (rstop s) (pc s) (accepted s) (accpre s) (late s) (taken s) (begun s) (ended s) (finished s) (failures s) (postb s) (failedids s).
+  mkState (queue s) (qstop s) (store s) (refs s) (closed s) v (exited s) (holding s) (cflush s) (current s) (workers s) (works s) (timer s) (bclosed s) (rstop s) (pc s) (accepted s) (accpre s) (late s) (taken s) (begun s) (ended s) (finished s) (failures s) (postb s) (failedids s) (shuterr s).
 Definition set_exited (v : nat) (s : state) : state :=
-  mkState (queue s) (qstop s) (store s) (refs s) (closed s) (idle s) v (holding s) (cflush s) (current s) (workers s) (works s) (timer s) (bclosed s) (rstop s) (pc s) (accepted s) (accpre s) (late s) (taken s) (begun s) (ended s) (finished s) (failures s) (postb s) (failedids s).
+  mkState (queue s) (qstop s) (store s) (refs s) (closed s) (idle s) v (holding s) (cflush s) (current s) (workers s) (works s) (timer s) (bclosed s) (rstop s) (pc s) (accepted s) (accpre s) (late s) (taken s) (begun s) (ended s) (finished s) (failures s) (postb s) (failedids s) (shuterr s).
 Definition set_holding (v : list id) (s : state) : state :=
-  mkState (queue s) (qstop s) (store s) (refs s) (closed s) (idle s) (exited s) v (cflush s) (current s) (workers s) (works s) (timer s) (bclosed s) (rstop s) (pc s) (accepted s) (accpre s) (late s) (taken s) (begun s) (ended s) (finished s) (failures s) (postb s) (failedids s).
+  mkState (queue s) (qstop s) (store s) (refs s) (closed s) (idle s) (exited s) v (cflush s) (current s) (workers s) (works s) (timer s) (bclosed s) (rstop s) (pc s) (accepted s) (accpre s) (late s) (taken s) (begun s) (ended s) (finished s) (failures s) (postb s) (failedids s) (shuterr s).
 Definition set_cflush (v : list (list id)) (s : state) : state :=
-  mkState (queue s) (qstop s) (store s) (refs s) (closed s) (idle s) (exited s) (holding s) v (current s) (workers s) (works s) (timer s) (bclosed s) (rstop s) (pc s) (accepted s) (accpre s) (late s) (taken s) (begun s) (ended s) (finished s) (failures s) (postb s) (failedids s).
+  mkState (queue s) (qstop s) (store s) (refs s) (closed s) (idle s) (exited s) (holding s) v (current s) (workers s) (works s) (timer s) (bclosed s) (rstop s) (pc s) (accepted s) (accpre s) (late s) (taken s) (begun s) (ended s) (finished s) (failures s) (postb s) (failedids s) (shuterr s).
 Definition set_current (v : list id) (s : state) : state :=
-  mkState (queue s) (qstop s) (store s) (refs s) (closed s) (idle s) (exited s) (holding s) (cflush s) v (workers s) (works s) (timer s) (bclosed s) (rstop s) (pc s) (accepted s) (accpre s) (late s) (taken s) (begun s) (ended s) (finished s) (failures s) (postb s) (failedids s).
+  mkState (queue s) (qstop s) (store s) (refs s) (closed s) (idle s) (exited s) (holding s) (cflush s) v (workers s) (works s) (timer s) (bclosed s) (rstop s) (pc s) (accepted s) (accpre s) (late s) (taken s) (begun s) (ended s) (finished s) (failures s) (postb s) (failedids s) (shuterr s).
 Definition set_workers (v : nat) (s : state) : state :=
-  mkState (queue s) (qstop s) (store s) (refs s) (closed s) (idle s) (exited s) (holding s) (cflush s) (current s) v (works s) (timer s) (bclosed s) (rstop s) (pc s) (accepted s) (accpre s) (late s) (taken s) (begun s) (ended s) (finished s) (failures s) (postb s) (failedids s).
+  mkState (queue s) (qstop s) (store s) (refs s) (closed s) (idle s) (exited s) (holding s) (cflush s) (current s) v (works s) (timer s) (bclosed s) (rstop s) (pc s) (accepted s) (accpre s) (late s) (taken s) (begun s) (ended s) (finished s) (failures s) (postb s) (failedids s) (shuterr s).
 Definition set_works (v : list work) (s : state) : state :=
-  mkState (queue s) (qstop s) (store s) (refs s) (closed s) (idle s) (exited s) (holding s) (cflush s) (current s) (workers s) v (timer s) (bclosed s) (rstop s) (pc s) (accepted s) (accpre s) (late s) (taken s) (begun s) (ended s) (finished s) (failures s) (postb s) (failedids s).
+  mkState (queue s) (qstop s) (store s) (refs s) (closed s) (idle s) (exited s) (holding s) (cflush s) (current s) (workers s) v (timer s) (bclosed s) (rstop s) (pc s) (accepted s) (accpre s) (late s) (taken s) (begun s) (ended s) (finished s) (failures s) (postb s) (failedids s) (shuterr s).
 Definition set_timer (v : timer_st) (s : state) : state :=
-  mkState (queue s) (qstop s) (store s) (refs s) (closed s) (idle s) (exited s) (holding s) (cflush s) (current s) (workers s) (works s) v (bclosed s) (rstop s) (pc s) (accepted s) (accpre s) (late s) (taken s) (begun s) (ended s) (finished s) (failures s) (postb s) (failedids s).
+  mkState (queue s) (qstop s) (store s) (refs s) (closed s) (idle s) (exited s) (holding s) (cflush s) (current s) (workers s) (works s) v (bclosed s) (rstop s) (pc s) (accepted s) (accpre s) (late s) (taken s) (begun s) (ended s) (finished s) (failures s) (postb s) (failedids s) (shuterr s).
 Definition set_bclosed (v : bool) (s : state) : state :=
-  mkState (queue s) (qstop s) (store s) (refs s) (closed s) (idle s) (exited s) (holding s) (cflush s) (current s) (workers s) (works s) (timer s) v (rstop s) (pc s) (accepted s) (accpre s) (late s) (taken s) (begun s) (ended s) (finished s) (failures s) (postb s) (failedids s).
+  mkState (queue s) (qstop s) (store s) (refs s) (closed s) (idle s) (exited s) (holding s) (cflush s) (current s) (workers s) (works s) (timer s) v (rstop s) (pc s) (accepted s) (accpre s) (late s) (taken s) (begun s) (ended s) (finished s) (failures s) (postb s) (failedids s) (shuterr s).
 Definition set_rstop (v : bool) (s : state) : state :=
-  mkState (queue s) (qstop s) (store s) (refs s) (closed s) (idle s) (exited s) (holding s) (cflush s) (current s) (workers s) (works s) (timer s) (bclosed s) v (pc s) (accepted s) (accpre s) (late s) (taken s) (begun s) (ended s) (finished s) (failures s) (postb s) (failedids s).
+  mkState (queue s) (qstop s) (store s) (refs s) (closed s) (idle s) (exited s) (holding s) (cflush s) (current s) (workers s) (works s) (timer s) (bclosed s) v (pc s) (accepted s) (accpre s) (late s) (taken s) (begun s) (ended s) (finished s) (failures s) (postb s) (failedids s) (shuterr s).
 Definition set_pc (v : pc_t) (s : state) : state :=
-  mkState (queue s) (qstop s) (store s) (refs s) (closed s) (idle s) (exited s) (holding s) (cflush s) (current s) (workers s) (works s) (timer s) (bclosed s) (rstop s) v (accepted s) (accpre s) (late s) (taken s) (begun s) (ended s) (finished s) (failures s) (postb s) (failedids s).
+  mkState (queue s) (qstop s) (store s) (refs s) (closed s) (idle s) (exited s) (holding s) (cflush s) (current s) (workers s) (works s) (timer s) (bclosed s) (rstop s) v (accepted s) (accpre s) (late s) (taken s) (begun s) (ended s) (finished s) (failures s) (postb s) (failedids s) (shuterr s).
 Definition set_accepted (v : list id) (s : state) : state :=
-  mkState (queue s) (qstop s) (store s) (refs s) (closed s) (idle s) (exited s) (holding s) (cflush s) (current s) (workers s) (works s) (timer s) (bclosed s) (rstop s) (pc s) v (accpre s) (late s) (taken s) (begun s) (ended s) (finished s) (failures s) (postb s) (failedids s).
+  mkState (queue s) (qstop s) (store s) (refs s) (closed s) (idle s) (exited s) (holding s) (cflush s) (current s) (workers s) (works s) (timer s) (bclosed s) (rstop s) (pc s) v (accpre s) (late s) (taken s) (begun s) (ended s) (finished s) (failures s) (postb s) (failedids s) (shuterr s).
 Definition set_accpre (v : list id) (s : state) : state :=
-  mkState (queue s) (qstop s) (store s) (refs s) (closed s) (idle s) (exited s) (holding s) (cflush s) (current s) (workers s) (works s) (timer s) (bclosed s) (rstop s) (pc s) (accepted s) v (late s) (taken s) (begun s) (ended s) (finished s) (failures s) (postb s) (failedids s).
+  mkState (queue s) (qstop s) (store s) (refs s) (closed s) (idle s) (exited s) (holding s) (cflush s) (current s) (workers s) (works s) (timer s) (bclosed s) (rstop s) (pc s) (accepted s) v (late s) (taken s) (begun s) (ended s) (finished s) (failures s) (postb s) (failedids s) (shuterr s).
 Definition set_late (v : list id) (s : state) : state :=
-  mkState (queue s) (qstop s) (store s) (refs s) (closed s) (idle s) (exited s) (holding s) (cflush s) (current s) (workers s) (works s) (timer s) (bclosed s) (rstop s) (pc s) (accepted s) (accpre s) v (taken s) (begun s) (ended s) (finished s) (failures s) (postb s) (failedids s).
+  mkState (queue s) (qstop s) (store s) (refs s) (closed s) (idle s) (exited s) (holding s) (cflush s) (current s) (workers s) (works s) (timer s) (bclosed s) (rstop s) (pc s) (accepted s) (accpre s) v (taken s) (begun s) (ended s) (finished s) (failures s) (postb s) (failedids s) (shuterr s).
 Definition set_taken (v : list id) (s : state) : state :=
-  mkState (queue s) (qstop s) (store s) (refs s) (closed s) (idle s) (exited s) (holding s) (cflush s) (current s) (workers s) (works s) (timer s) (bclosed s) (rstop s) (pc s) (accepted s) (accpre s) (late s) v (begun s) (ended s) (finished s) (failures s) (postb s) (failedids s).
+  mkState (queue s) (qstop s) (store s) (refs s) (closed s) (idle s) (exited s) (holding s) (cflush s) (current s) (workers s) (works s) (timer s) (bclosed s) (rstop s) (pc s) (accepted s) (accpre s) (late s) v (begun s) (ended s) (finished s) (failures s) (postb s) (failedids s) (shuterr s).
 Definition set_begun (v : list id) (s : state) : state :=
-  mkState (queue s) (qstop s) (store s) (refs s) (closed s) (idle s) (exited s) (holding s) (cflush s) (current s) (workers s) (works s) (timer s) (bclosed s) (rstop s) (pc s) (accepted s) (accpre s) (late s) (taken s) v (ended s) (finished s) (failures s) (postb s) (failedids s).
+  mkState (queue s) (qstop s) (store s) (refs s) (closed s) (idle s) (exited s) (holding s) (cflush s) (current s) (workers s) (works s) (timer s) (bclosed s) (rstop s) (pc s) (accepted s) (accpre s) (late s) (taken s) v (ended s) (finished s) (failures s) (postb s) (failedids s) (shuterr s).
 Definition set_ended (v : list id) (s : state) : state :=
-  mkState (queue s) (qstop s) (store s) (refs s) (closed s) (idle s) (exited s) (holding s) (cflush s) (current s) (workers s) (works s) (timer s) (bclosed s) (rstop s) (pc s) (accepted s) (accpre s) (late s) (taken s) (begun s) v (finished s) (failures s) (postb s) (failedids s).
+  mkState (queue s) (qstop s) (store s) (refs s) (closed s) (idle s) (exited s) (holding s) (cflush s) (current s) (workers s) (works s) (timer s) (bclosed s) (rstop s) (pc s) (accepted s) (accpre s) (late s) (taken s) (begun s) v (finished s) (failures s) (postb s) (failedids s) (shuterr s).
 Definition set_finished (v : list (id * result)) (s : state) : state :=
-  mkState (queue s) (qstop s) (store s) (refs s) (closed s) (idle s) (exited s) (holding s) (cflush s) (current s) (workers s) (works s) (timer s) (bclosed s) (rstop s) (pc s) (accepted s) (accpre s) (late s) (taken s) (begun s) (ended s) v (failures s) (postb s) (failedids s).
+  mkState (queue s) (qstop s) (store s) (refs s) (closed s) (idle s) (exited s) (holding s) (cflush s) (current s) (workers s) (works s) (timer s) (bclosed s) (rstop s) (pc s) (accepted s) (accpre s) (late s) (taken s) (begun s) (ended s) v (failures s) (postb s) (failedids s) (shuterr s).
 Definition set_failures (v : nat) (s : state) : state :=
-  mkState (queue s) (qstop s) (store s) (refs s) (closed s) (idle s) (exited s) (holding s) (cflush s) (current s) (workers s) (works s) (timer s) (bclosed s) (rstop s) (pc s) (accepted s) (accpre s) (late s) (taken s) (begun s) (ended s) (finished s) v (postb s) (failedids s).
+  mkState (queue s) (qstop s) (store s) (refs s) (closed s) (idle s) (exited s) (holding s) (cflush s) (current s) (workers s) (works s) (timer s) (bclosed s) (rstop s) (pc s) (accepted s) (accpre s) (late s) (taken s) (begun s) (ended s) (finished s) v (postb s) (failedids s) (shuterr s).
 Definition set_postb (v : nat) (s : state) : state :=
-  mkState (queue s) (qstop s) (store s) (refs s) (closed s) (idle s) (exited s) (holding s) (cflush s) (current s) (workers s) (works s) (timer s) (bclosed s) (rstop s) (pc s) (accepted s) (accpre s) (late s) (taken s) (begun s) (ended s) (finished s) (failures s) v (failedids s).
+  mkState (queue s) (qstop s) (store s) (refs s) (closed s) (idle s) (exited s) (holding s) (cflush s) (current s) (workers s) (works s) (timer s) (bclosed s) (rstop s) (pc s) (accepted s) (accpre s) (late s) (taken s) (begun s) (ended s) (finished s) (failures s) v (failedids s) (shuterr s).
 Definition set_failedids (v : list id) (s : state) : state :=
-  mkState (queue s) (qstop s) (store s) (refs s) (closed s) (idle s) (exited s) (holding s) (cflush s) (current s) (workers s) (works s) (timer s) (bclosed s) (rstop s) (pc s) (accepted s) (accpre s) (late s) (taken s) (begun s) (ended s) (finished s) (failures s) (postb s) v.
+  mkState (queue s) (qstop s) (store s) (refs s) (closed s) (idle s) (exited s) (holding s) (cflush s) (current s) (workers s) (works s) (timer s) (bclosed s) (rstop s) (pc s) (accepted s) (accpre s) (late s) (taken s) (begun s) (ended s) (finished s) (failures s) (postb s) v (shuterr s).
+Definition set_shuterr (v : bool) (s : state) : state :=
+  mkState (queue s) (qstop s) (store s) (refs s) (closed s) (idle s) (exited s) (holding s) (cflush s) (current s) (workers s) (works s) (timer s) (bclosed s) (rstop s) (pc s) (accepted s) (accpre s) (late s) (taken s) (begun s) (ended s) (finished s) (failures s) (postb s) (failedids s) v.
 
 (* ---- list helpers ------------------------------------------------------------------------- *)
 Fixpoint remove_nth {A} (k : nat) (l : list A) : list A :=
@@ -176,7 +179,10 @@ Inductive label :=
 | LTimerExit                 (* timer goroutine: <-shutdownCh *)
 | LShutCall                  (* BaseExporter.Shutdown is called ("shutdown requested") *)
 | LCloseStop                 (* retrySender.Shutdown: close(stopCh) *)
-| LQueueStop                 (* queue.Shutdown critical section: stopped = true; Broadcast; (persistent) unref client *)
+| LQueueStop (err : bool)    (* queue.Shutdown critical section: stopped = true; Broadcast; (persistent) unref client.
+                                err: the storage failed (queue-size snapshot not written / Close failed): the call returns
+                                an error, which changes NOTHING else — consumers are still joined, the batcher is still
+                                shut down; the error is only joined into Shutdown's result (ghost [shuterr]) *)
 | LJoinConsumers             (* asyncQueue.Shutdown: stopWG.Wait returns *)
 | LFinalFlush                (* defaultBatcher.Shutdown: close(shutdownCh); take currentBatch under the lock *)
 | LFinalSpawn                (* ... flush() obtains a worker *)
@@ -189,7 +195,7 @@ Definition init (c : cfg) : state :=
           (c_ncons c) 0 [] []
           [] (c_nwork c) [] (if c_batch c && c_timer c then TRun else TNone) false
           false PNot
-          [] [] [] [] [] [] [] 0 0 [].
+          [] [] [] [] [] [] [] 0 0 [] false.
 
 Definition new_work (b : list id) (bycons : bool) (s : state) : state :=
   set_works (works s ++ [mkWork b SReady bycons]) s.
@@ -322,10 +328,10 @@ Definition step (c : cfg) (s : state) (l : label) : option state :=
       | PCalled => Some (set_pc PStopClosed (set_rstop (c_retry c) s))
       | _ => None
       end
-  | LQueueStop =>
+  | LQueueStop err =>
       match pc s with
       | PStopClosed =>
-          let s1 := set_pc PQStopped (set_qstop true s) in
+          let s1 := set_pc PQStopped (set_qstop true (set_shuterr err s)) in
           Some (if c_persist c then
                   let refs' := refs s1 - 1 in set_refs refs' (set_closed (closed s1 || Nat.eqb refs' 0) s1)
                 else s1)
@@ -359,6 +365,25 @@ Definition step (c : cfg) (s : state) (l : label) : option state :=
   | LReturn => match pc s with PInner => Some (set_pc PReturned s) | _ => None end
   end.
 
+(* ---- a stored request that the batcher splits (max_size) into several export calls -------------
+   default_batcher.go refCountDone: every part reports its result; the errors are accumulated
+   (multierr.Append) and the queue's Done is called once, after the last part, with the accumulated
+   error.  persistent_queue.go onDone keeps the stored request iff experr.IsShutdownErr(err), and
+   errors.As looks into every accumulated error.  So the request's verdict is: *)
+Fixpoint combine (rs : list result) : result :=
+  match rs with
+  | [] => RSuccess
+  | r :: t =>
+      match r, combine t with
+      | RShutdown, _ | _, RShutdown => RShutdown     (* some part was only interrupted by the shutdown *)
+      | RFail, _ | _, RFail => RFail
+      | RSuccess, RSuccess => RSuccess
+      end
+  end.
+
+(* is the request still in the storage after all its parts reported? *)
+Definition kept_after (rs : list result) : bool := is_shutdown (combine rs).
+
 Fixpoint run (c : cfg) (s : state) (ls : list label) : option state :=
   match ls with
   | [] => Some s
@@ -381,16 +406,27 @@ Record hcfg := mkH {
   h_cfg : cfg;
   h_mode : nat;      (* retry: 0 off | 1 long back-off (never elapses) | 2 short back-off | 3 gives up at once *)
   h_min : nat;       (* batch min_size in items *)
-  h_wait : bool }.   (* wait_for_result: Offer returns (with the export's result) only when Done is called *)
+  h_wait : bool;     (* wait_for_result: Offer returns (with the export's result) only when Done is called *)
+  h_fsize : bool;    (* storage fault: the queue-size snapshot written by persistentQueue.Shutdown fails
+                        (only written when the queue is not sized by requests) *)
+  h_fclose : bool }. (* storage fault: client.Close fails *)
+
+(* does persistentQueue.Shutdown return an error in state s?  backupQueueSize fails, or the client is closed
+   right there (last reference) and Close fails *)
+Definition qstop_err (hc : hcfg) (s : state) : bool :=
+  c_persist (h_cfg hc) && (h_fsize hc || (h_fclose hc && Nat.eqb (refs s) 1)).
 
 Inductive action := AOffer (i : id) (sz : nat) | ARelease (i : id) (o : outcome) | AShutdown
                   | ATimerFire    (* the harness makes the batcher's flush timer fire now *)
-                  | AShutdownRace (m : nat).
+                  | AShutdownRace (m : nat) (e : bool).
 (* AShutdownRace: Shutdown is called while a work sits in a long back-off and the persistent queue still holds
    requests.  close(stopCh) wakes the back-off; the freed consumer then races with persistentQueue.Shutdown
    for the next request — both orders are legal.  The harness reports what it saw: m = number of ids whose
    FIRST export begins after the call.  The ids already taken (current batch, ...) account for some of them;
-   the rest, k, are the Reads that won the race: the scheduler lets exactly k LTake happen before LQueueStop. *)
+   the rest, k, are the Reads that won the race: the scheduler lets exactly k LTake happen before LQueueStop.
+   e = Shutdown returned an error.  With a failing storage Close that depends on the same race (the client is
+   closed inside persistentQueue.Shutdown only if every in-flight request was Done before): when no Read won
+   and no error was seen, the queue's stop is scheduled before the woken works finish. *)
 
 Definition event := (nat * list id)%type.
 (* kinds: 0 export begins (ids) | 1 export ends (ids) | 2 Shutdown returned | 3 wrapped exporter shut down
@@ -447,7 +483,7 @@ Definition candidates (hc : hcfg) (sizes : list (id * nat)) (s : state) : list l
    | i :: _ => [LAbsorb 0 (Nat.leb (h_min hc) (bsize sizes (current s ++ [i])))]
    | [] => []
    end) ++
-  [LSpawnC 0; LTimerSpawn; LTake; LConsExit; LTimerExit; LCloseStop; LQueueStop; LJoinConsumers;
+  [LSpawnC 0; LTimerSpawn; LTake; LConsExit; LTimerExit; LCloseStop; LQueueStop (qstop_err hc s); LJoinConsumers;
    LFinalFlush; LFinalSpawn; LJoinFlushes; LInnerShutdown; LReturn].
 
 Fixpoint first_enabled (c : cfg) (s : state) (ls : list label) : option (label * state) :=
@@ -460,7 +496,7 @@ Definition events_of (hc : hcfg) (l : label) (s s' : state) : list event :=
   (match l with
    | LBegin k => match nth_error (works s) k with Some w => [(0, sort_nat (w_ids w))] | None => [] end
    | LEnd k _ => match nth_error (works s) k with Some w => [(1, sort_nat (w_ids w))] | None => [] end
-   | LReturn => [(2, [])]
+   | LReturn => [(2, if shuterr s then [1] else [])]
    | LInnerShutdown => [(3, [])]
    | LOffer i => if h_wait hc then [] else [(4, [i])]
    | LOfferFail i => [(5, [i])]
@@ -494,7 +530,7 @@ Fixpoint settle_f (allow : label -> bool) (fuel : nat) (hc : hcfg) (sizes : list
 
 Definition settle := settle_f (fun _ => true).
 
-Definition not_take_stop (l : label) : bool := match l with LTake | LQueueStop => false | _ => true end.
+Definition not_take_stop (l : label) : bool := match l with LTake | LQueueStop _ => false | _ => true end.
 
 Definition settle_fuel : nat := 400.
 
@@ -519,20 +555,21 @@ Definition unbegun_taken (s : state) : nat :=
   length (holding s) + length (current s) + fold_right (fun b a => length b + a) 0 (cflush s)
   + match timer s with TFlush b => length b | _ => 0 end.
 
-Definition exec_race (hc : hcfg) (sizes : list (id * nat)) (s : state) (m : nat)
+Definition exec_race (hc : hcfg) (sizes : list (id * nat)) (s : state) (m : nat) (e : bool)
   : option (list label * list event * state) :=
   let c := h_cfg hc in
+  let k := m - unbegun_taken s in
   match step c s LShutCall with
   | Some s1 =>
       match step c s1 LCloseStop with
       | Some s2 =>
-          match race_takes (m - unbegun_taken s) hc sizes s2 with
+          match (if Nat.eqb k 0 && negb e then Some ([], [], s2) else race_takes k hc sizes s2) with
           | Some (ls3, evs3, s3) =>
-              match step c s3 LQueueStop with
+              match step c s3 (LQueueStop (qstop_err hc s3)) with
               | Some s4 =>
                   let '(ls5, evs5, s5) := settle settle_fuel hc sizes s4 in
-                  Some (LShutCall :: LCloseStop :: ls3 ++ LQueueStop :: ls5,
-                        evs3 ++ events_of hc LQueueStop s3 s4 ++ evs5, s5)
+                  Some (LShutCall :: LCloseStop :: ls3 ++ LQueueStop (qstop_err hc s3) :: ls5,
+                        evs3 ++ events_of hc (LQueueStop (qstop_err hc s3)) s3 s4 ++ evs5, s5)
               | None => None
               end
           | None => None
@@ -559,15 +596,15 @@ Definition action_label (hc : hcfg) (s : state) (a : action) : option label :=
   | ARelease i o => option_map (fun k => LEnd k o) (find_call i 0 (works s))
   | AShutdown => Some LShutCall
   | ATimerFire => Some LTimerFire
-  | AShutdownRace _ => None
+  | AShutdownRace _ _ => None
   end.
 
 Definition exec_action (hc : hcfg) (sizes : list (id * nat)) (s : state) (a : action)
   : option (list label * list event * state * list (id * nat)) :=
   let sizes' := match a with AOffer i sz => (i, sz) :: sizes | _ => sizes end in
   match a with
-  | AShutdownRace m =>
-      match exec_race hc sizes s m with
+  | AShutdownRace m e =>
+      match exec_race hc sizes s m e with
       | Some (ls, evs, s2) => Some (ls, sort_ev evs, s2, sizes)
       | None => None
       end
